@@ -151,6 +151,64 @@ theorem match_complete_or_error_rules (cands : List Cand) (s : SR) (e : String)
   rw [fact_cfg_fixed] at h ⊢
   exact sr_error_complete Cfg.fixed rfl cands s e h
 
+/-- a definition that has input descriptors requires credentials, whatever its submission requirements are … -/
+theorem credentials_required_of_descriptors (pd : PD) (h : pd.descs ≠ []) : credentialsRequired pd = true := by
+  have hgo : ∀ (ss : List SR) (b : Bool), credentialsRequired.go ss = some b → b = true := by
+    intro ss
+    induction ss with
+    | nil => intro b hb; simp [credentialsRequired.go] at hb
+    | cons s ss ih =>
+      intro b hb
+      unfold credentialsRequired.go at hb
+      split at hb
+      · injection hb with hb; exact hb.symm
+      · split at hb
+        · split at hb
+          · injection hb with hb; exact hb.symm
+          · exact ih b hb
+        · simp only [Bool.and_false, Bool.false_eq_true, if_false] at hb
+          exact ih b hb
+  unfold credentialsRequired
+  split
+  · next b hb => exact hgo _ b hb
+  · cases hd : pd.descs with
+    | nil => exact absurd hd h
+    | cons _ _ => rfl
+
+/-- … so when no wallet holds a complete selection (`Match` fails on each), `Build` reports that instead of returning
+    an empty or partial submission, and `Validate` cannot accept an envelope none of whose presentations matches -/
+theorem build_reports_missing_credentials (re : Regex) (pd : PD) (wallets : List (List Cred)) (h : pd.descs ≠ [])
+    (hno : ∀ w ∈ wallets, ∃ e, pdMatch Facts.C12.cfg re pd w = .err e) :
+    build Facts.C12.cfg re pd wallets = .err "nomatch" := by
+  have hfw : firstWallet Facts.C12.cfg re pd wallets = .ok none := by
+    induction wallets with
+    | nil => rfl
+    | cons w ws ih =>
+      obtain ⟨e, he⟩ := hno w List.mem_cons_self
+      unfold firstWallet
+      rw [he]
+      exact ih (fun w' hw' => hno w' (List.mem_cons_of_mem _ hw'))
+  unfold build
+  rw [hfw]
+  simp [credentials_required_of_descriptors pd h]
+
+theorem validate_rejects_without_complete_selection (re : Regex) (decode : Decoder) (pd : PD) (env : Envelope)
+    (sub : List Mapping) (h : pd.descs ≠ [])
+    (hno : ∀ w ∈ env.presentations, ∃ e, pdMatch Facts.C12.cfg re pd w = .err e) (m : List (String × Cred)) :
+    validate Facts.C12.cfg re decode pd env sub ≠ .ok m := by
+  intro hv
+  have hb := build_reports_missing_credentials re pd env.presentations h hno
+  unfold validate at hv
+  split at hv
+  · cases hv
+  · cases hv
+  · split at hv
+    · simp [credentials_required_of_descriptors pd h] at hv
+    · split at hv
+      · cases hv
+      · rw [hb] at hv
+        cases hv
+
 /-! ### `forged_mapping_rejected`: what the verifier accepts -/
 
 /-- If `Validate` accepts a submission for an envelope with at least one presentation (credentials parsed from an
